@@ -45,7 +45,7 @@ SYMPTOMS = ("nonfinite", "element_lost", "negative", "conservation", "quotient",
 RATE_MIN = 0.95
 RATE_MIN_CASES = 40
 
-N_CASES = {"quick": {"homog": 150, "precip": 60, "brentq": 120},
+N_CASES = {"quick": {"homog": 150, "precip": 100, "brentq": 120},
            "thorough": {"homog": 5000, "precip": 1500, "brentq": 5000}}
 
 # DESIGN section 9, F-C08: fixed case so that the finding fires on every run
